@@ -376,9 +376,9 @@ def r13(ctx):
     R = "C02-R13"
     ctx.rule(R, "a FIN is never answered with a RST: a FIN carries no data, so nothing is lost when its addressee is gone - (a) in "
                 "Tcp::receive_from_network the Fin arm's `no such stream` edge builds no Segment::Rst (the local side closed gracefully; "
-                "there is no TIME-WAIT state and a RST would destroy what it sent before closing); (b) in StreamSocket::buffer the "
-                "`receiver dropped` edge (the read half was dropped, the write half is still open) answers RST only after looking at what "
-                "the segment at the head of the reorder buffer is")
+                "there is no TIME-WAIT state and a RST would destroy what it sent before closing); (b) StreamSocket::buffer, which runs "
+                "only while the stream's table entry exists (the read half may be dropped, the write half is still open), builds no RST at "
+                "all: inbound segments nobody will read are discarded and the open direction is left alone")
     rf = ctx.body(R, "turmoil::host::Tcp::receive_from_network")
     if rf:
         rsts = [bb for bb, i, s in rf.all_stmts() if s["r"]["k"] == "agg" and s["r"].get("adt") == "turmoil::envelope::Segment" and s["r"].get("variant") == "Rst"]
@@ -390,20 +390,15 @@ def r13(ctx):
                  "peer's reader gets ConnectionReset instead of the bytes this side wrote before closing, then EOF")
     bf = ctx.body(R, "turmoil::host::StreamSocket::buffer")
     if bf:
-        rsts = [bb for bb, i, s in bf.all_stmts() if s["r"]["k"] == "agg" and s["r"].get("adt") == "turmoil::envelope::Segment" and s["r"].get("variant") == "Rst"]
-        SEQ = "turmoil::host::SequencedSegment"
-        # switches that look at the head of the reorder buffer: on the SequencedSegment itself, or on the Option a lookup in `buf` returned
-        looks = [sbb for sbb, m, els, adt, pl in variant_edges(bf, lambda p: True) if adt == SEQ]
-        for sbb, m, els, adt, pl in variant_edges(bf, lambda p: True):
-            if adt == "std::option::Option":
-                at = Slicer(ctx.w).atoms(bf, bf.term(sbb)["d"])
-                if "field:turmoil::host::StreamSocket::buf" in at and any(re.search(r"IndexMap::(get|get_mut|swap_remove|shift_remove)$", a) for a in at):
-                    looks.append(sbb)
-        ok = bool(rsts) and bool(looks) and all(bf.dominated_by_any(x, blocks=looks) for x in rsts)
-        ctx.inst(R, "buffer:fin-after-read-half-dropped", ok, bf.site(rsts[0]) if rsts else bf.span,
-                 "a RST for a dropped read half is sent only for data" if ok else
-                 "StreamSocket::buffer answers any segment - a bare FIN included - with a RST once the read half was dropped, although the write half is "
-                 "still open: the peer's shutdown() kills the direction that is still in use")
+        # the socket is still in the table here (some half of the stream is alive): whatever arrives for a read half that was
+        # dropped is discarded - a RST would remove the peer's socket and with it the direction that is still in use
+        rsts = [(fb, bb) for fb in ctx.w.family(bf.id) for bb, i, s in fb.all_stmts()
+                if i != "term" and s["r"]["k"] == "agg" and s["r"].get("adt") == "turmoil::envelope::Segment" and s["r"].get("variant") == "Rst"]
+        ok = not rsts
+        ctx.inst(R, "buffer:no-reset-while-a-half-is-open", ok, rsts[0][0].site(rsts[0][1]) if rsts else bf.span,
+                 "segments for a dropped read half are discarded; the open write direction is left alone" if ok else
+                 "StreamSocket::buffer answers a segment with a RST once the read half was dropped although the write half is still open: data (or a FIN) "
+                 "from the peer kills the direction that is still in use - the peer's reader gets ConnectionReset instead of the bytes this side's writes accepted")
     ctx.floor(R, 2)
 
 
